@@ -381,7 +381,7 @@ func (r *runner) repoModels(reps int) {
 		if err != nil || len(b) > 20000 || strings.Contains(string(b), "\nimport ") || strings.HasPrefix(string(b), "import ") {
 			continue
 		}
-		if !r.c.Thorough() && (len(b) < 1500 || n >= 10) {
+		if !r.c.Thorough() && (len(b) < 1500 || n >= 6) {
 			continue
 		}
 		n++
@@ -417,9 +417,10 @@ var cliCmds = []cliCmd{
 	{"cli:export-openapi3", func(in *input) []string {
 		return []string{"export", "-f", "openapi3", "-o", "oas/%(appname).json", "m.sysl"}
 	}, "oas"},
-	{"cli:export-swagger", func(in *input) []string {
-		return []string{"export", "-f", "swagger", "-o", "sw/%(appname).yaml", "m.sysl"}
-	}, "sw"},
+	{"cli:export-openapi3-yaml", func(in *input) []string {
+		return []string{"export", "-f", "openapi3", "-o", "oasy/%(appname).yaml", "m.sysl"}
+	}, "oasy"},
+	{"cli:pb-binary", func(in *input) []string { return []string{"pb", "--mode", "pb", "-o", "bin/m.pb", "m.sysl"} }, "bin"},
 	{"cli:db-scripts", func(in *input) []string {
 		return []string{"generate-db-scripts", "-t", "t", "-o", "db", "-a", strings.Join(realApps(in)[:2], ","), "-d", "postgres", "m.sysl"}
 	}, "db"},
@@ -437,10 +438,14 @@ func (r *runner) cliOne(bin, name string, in *input, reps int) {
 	}
 	var outs []string
 	for k := 0; k < reps; k++ {
-		dir := filepath.Join(r.c.Out, "cli", fmt.Sprintf("%s-%d", strings.ReplaceAll(name, ":", "_"), k))
+		// the same directory for every repetition: the compiled model records the path of its source file
+		dir := filepath.Join(r.c.Out, "cli", strings.ReplaceAll(name, ":", "_"))
 		os.RemoveAll(dir)
 		os.MkdirAll(dir, 0o755)
 		os.WriteFile(filepath.Join(dir, "m.sysl"), []byte(in.Text), 0o644)
+		if cmd.out != "stdout" {
+			os.MkdirAll(filepath.Join(dir, cmd.out), 0o755) // the diagram and script commands do not create it
+		}
 		c := exec.Command(bin, cmd.args(in)...)
 		c.Dir = dir
 		c.Env = append(os.Environ(), "SYSL_PLANTUML=http://localhost:1")
